@@ -62,11 +62,20 @@ type qrec struct {
 	// by the inline wire path, answered by a worker).
 	Burst int  `json:"burst,omitempty"`
 	ECS   bool `json:"ecs,omitempty"`
+	// Mixed-eligibility bursts (mixed.go). Shape: the wire shape of the query
+	// (shapes.go); Mixed: its role (hit-worker | hit-inline | slow | probe-*);
+	// Chain: the CNAME hops of a slow question; PlanMs: its scripted upstream time.
+	Shape      string   `json:"shape,omitempty"`
+	Mixed      string   `json:"mixed_role,omitempty"`
+	MixedBurst int      `json:"mixed_burst,omitempty"`
+	Chain      []string `json:"chain,omitempty"`
+	PlanMs     int      `json:"planned_upstream_ms,omitempty"`
 
 	pkt []byte
 
 	mu         sync.Mutex
 	sentAt     time.Time
+	sentDone   time.Time // UDP: when the write returned (sentAt is taken before it)
 	sendErr    string
 	replies    []reply
 	connClosed bool      // TCP: the server closed the connection with this query unanswered
@@ -219,11 +228,24 @@ func (s *udpSock) send(q *qrec) {
 	q.mu.Lock()
 	q.sentAt = time.Now()
 	q.mu.Unlock()
-	if _, err := s.conn.Write(q.pkt); err != nil {
-		q.mu.Lock()
+	_, err := s.conn.Write(q.pkt)
+	done := time.Now()
+	q.mu.Lock()
+	q.sentDone = done
+	if err != nil {
 		q.sendErr = err.Error()
-		q.mu.Unlock()
 	}
+	q.mu.Unlock()
+}
+
+// written returns when the write of a UDP query began and when it returned.
+func (q *qrec) written() (from, to time.Time) {
+	q.mu.Lock()
+	defer q.mu.Unlock()
+	if q.sentDone.IsZero() {
+		return q.sentAt, q.sentAt
+	}
+	return q.sentAt, q.sentDone
 }
 
 func (s *udpSock) close() {
